@@ -108,7 +108,9 @@ def do_replay(pid, path, quiet=False):
     viols = prop.replay(doc['payload'])
     kf = known_findings()
     rc = 0
+    from mc.explore import clean_key
     for v in viols:
+        v['key'] = clean_key(v['key'])
         print('REPLAY-KEY=%s' % v['key'])
         if not quiet:
             print('  %s' % v['msg'])
